@@ -231,7 +231,7 @@ def namesOp (req : Json) : R Reply := do
   let holds := holdsCarried twin oref orefNames &&
     fonts.all (fun (_, n) => namesIdentify twin.length n) &&
     allSameNames (orefNames :: fonts.map (·.2))
-  let hyp := decide order.Nodup && Ufo2ft.C11.covers i && twin.length == order.length
+  let hyp := decide order.Nodup && order.head? == some Ufo2ft.C11.notdef && twin.length == order.length
   return { model, holds, hyp := Json.bool hyp }
 
 def handle (op : String) (req : Json) : R Reply :=
